@@ -389,38 +389,61 @@ func c19Sequence(c *Ctx) *RuleResult {
 	lastSeq := p.LookupField(nfsPkg, "slotState", "lastSequenceID")
 	lastRes := p.LookupField(nfsPkg, "slotState", "lastResult")
 	waiters := p.LookupField(nfsPkg, "slotState", "currentSequenceWaiters")
-	var sw *ast.SwitchStmt
+	// The request's sequence number is compared with the slot's lastSequenceID ("replay" arm) and
+	// with lastSequenceID + 1 ("next" arm), by a tagged switch or an if/else-if chain.
+	armCache := map[ast.Node]string{}
+	armOf := func(n ast.Node) string {
+		if a, ok := armCache[n]; ok {
+			return a
+		}
+		arm := ""
+		for _, gd := range flattenGuards(GuardsOf(info, u.Decl.Body, n)) {
+			be, ok := ast.Unparen(gd.Cond).(*ast.BinaryExpr)
+			if !ok || be.Op != token.EQL || !gd.Pos {
+				continue
+			}
+			for _, side := range []ast.Expr{be.X, be.Y} {
+				side = ast.Unparen(side)
+				if fieldOf(info, side) == lastSeq {
+					arm = "replay"
+				}
+				if add, ok := side.(*ast.BinaryExpr); ok && add.Op == token.ADD && fieldOf(info, add.X) == lastSeq && exprStr(add.Y) == "1" {
+					arm = "next"
+				}
+			}
+		}
+		armCache[n] = arm
+		return arm
+	}
+	var replayArm, nextArm ast.Node
 	ast.Inspect(u.Decl.Body, func(n ast.Node) bool {
-		if s, ok := n.(*ast.SwitchStmt); ok && s.Tag != nil && sw == nil {
-			for _, cl := range s.Body.List {
-				for _, e := range cl.(*ast.CaseClause).List {
-					if fieldOf(info, e) == lastSeq {
-						sw = s
-					}
+		if st, ok := n.(ast.Stmt); ok {
+			switch armOf(st) {
+			case "replay":
+				if replayArm == nil {
+					replayArm = st
+				}
+			case "next":
+				if nextArm == nil {
+					nextArm = st
 				}
 			}
 		}
 		return true
 	})
-	if sw == nil {
-		panic(anchorError("opSequence: switch on the request's sequence id"))
-	}
-	var replayArm, nextArm *ast.CaseClause
-	for _, cl := range sw.Body.List {
-		cc := cl.(*ast.CaseClause)
-		for _, e := range cc.List {
-			if fieldOf(info, e) == lastSeq {
-				replayArm = cc
-			}
-			if be, ok := ast.Unparen(e).(*ast.BinaryExpr); ok && be.Op == token.ADD && fieldOf(info, be.X) == lastSeq && exprStr(be.Y) == "1" {
-				nextArm = cc
-			}
-		}
-	}
 	if replayArm == nil || nextArm == nil {
-		panic(anchorError("opSequence: arms for lastSequenceID and lastSequenceID + 1"))
+		panic(anchorError("opSequence: branches for sequence id == lastSequenceID and == lastSequenceID + 1"))
 	}
-	within := func(outer ast.Node, n ast.Node) bool { return outer.Pos() <= n.Pos() && n.End() <= outer.End() }
+	inArm := func(arm string, n ast.Node) bool { return armOf(n) == arm }
+	sw := ast.Node(u.Decl.Body)
+	// the parameter holding the operations of the compound (a slice of NfsArgop4)
+	argArray := paramNameOfType(u, func(t types.Type) bool {
+		sl, ok := t.Underlying().(*types.Slice)
+		return ok && strings.HasSuffix(sl.Elem().String(), "NfsArgop4")
+	})
+	if argArray == "" {
+		panic(anchorError("opSequence: parameter with the compound's operations"))
+	}
 	// (i) operations loop only in nextArm
 	okLoop, nLoops := true, 0
 	ast.Inspect(u.Decl.Body, func(n ast.Node) bool {
@@ -428,7 +451,7 @@ func c19Sequence(c *Ctx) *RuleResult {
 		if !ok {
 			return true
 		}
-		if id, ok := ast.Unparen(rs.X).(*ast.Ident); ok && id.Name == "argArray" {
+		if id, ok := ast.Unparen(rs.X).(*ast.Ident); ok && id.Name == argArray {
 			// dispatch loop = contains a type switch
 			hasTS := false
 			ast.Inspect(rs.Body, func(m ast.Node) bool {
@@ -439,7 +462,7 @@ func c19Sequence(c *Ctx) *RuleResult {
 			})
 			if hasTS {
 				nLoops++
-				if !within(nextArm, rs) {
+				if !inArm("next", rs) {
 					okLoop = false
 				}
 			}
@@ -454,9 +477,9 @@ func c19Sequence(c *Ctx) *RuleResult {
 	// (ii) replay arm
 	var retStored *ast.ReturnStmt
 	lenTest, opTest := false, false
-	ast.Inspect(replayArm, func(n ast.Node) bool {
+	ast.Inspect(u.Decl.Body, func(n ast.Node) bool {
 		ret, ok := n.(*ast.ReturnStmt)
-		if !ok || len(ret.Results) != 1 {
+		if !ok || len(ret.Results) != 1 || !inArm("replay", ret) {
 			return true
 		}
 		if fieldOf(info, ret.Results[0]) == lastRes {
@@ -473,7 +496,7 @@ func c19Sequence(c *Ctx) *RuleResult {
 					return true
 				}
 				l, rr := exprStr(be.X), exprStr(be.Y)
-				if strings.HasPrefix(l, "len(") && strings.HasPrefix(rr, "len(") && (strings.Contains(l, "argArray") || strings.Contains(rr, "argArray")) {
+				if strings.HasPrefix(l, "len(") && strings.HasPrefix(rr, "len(") && (strings.Contains(l, argArray) || strings.Contains(rr, argArray)) {
 					lenTest = true
 				}
 				if strings.Contains(l+rr, "GetArgop()") {
@@ -494,9 +517,9 @@ func c19Sequence(c *Ctx) *RuleResult {
 		r.ok(construct, posOf(p, retStored), "stored result returned after length and opcode shape tests")
 	}
 	// (iii) in-flight duplicate registers its channel
-	ast.Inspect(nextArm, func(n ast.Node) bool {
+	ast.Inspect(u.Decl.Body, func(n ast.Node) bool {
 		ue, ok := n.(*ast.UnaryExpr)
-		if !ok || ue.Op != token.ARROW {
+		if !ok || ue.Op != token.ARROW || !inArm("next", ue) {
 			return true
 		}
 		chID, ok := ast.Unparen(ue.X).(*ast.Ident)
@@ -532,8 +555,8 @@ func c19Sequence(c *Ctx) *RuleResult {
 	})
 	// (iv) broadcast
 	var snapshot *ast.AssignStmt
-	ast.Inspect(nextArm, func(n ast.Node) bool {
-		if as, ok := n.(*ast.AssignStmt); ok && len(as.Rhs) == 1 && fieldOf(info, as.Rhs[0]) == waiters && as.Tok == token.DEFINE {
+	ast.Inspect(u.Decl.Body, func(n ast.Node) bool {
+		if as, ok := n.(*ast.AssignStmt); ok && len(as.Rhs) == 1 && fieldOf(info, as.Rhs[0]) == waiters && as.Tok == token.DEFINE && inArm("next", as) {
 			snapshot = as
 		}
 		return true
@@ -562,7 +585,7 @@ func c19Sequence(c *Ctx) *RuleResult {
 				if b.Pos() < a.Pos() {
 					a, b = b, a
 				}
-				ast.Inspect(nextArm, func(m ast.Node) bool {
+				ast.Inspect(u.Decl.Body, func(m ast.Node) bool {
 					call, ok := m.(*ast.CallExpr)
 					if !ok {
 						return true
@@ -577,7 +600,7 @@ func c19Sequence(c *Ctx) *RuleResult {
 			}
 			// sends to every waiter
 			sent := false
-			ast.Inspect(nextArm, func(m ast.Node) bool {
+			ast.Inspect(u.Decl.Body, func(m ast.Node) bool {
 				rs, ok := m.(*ast.RangeStmt)
 				if !ok || exprStr(rs.X) != exprStr(snapshot.Lhs[0]) {
 					return true
